@@ -460,6 +460,8 @@ def check(db, rep):
     order_rule(db, r7)
     r8 = rep.rule('r8', 'NORMALISE-SCOPE: eliminating a tuple declaration rewrites every in-scope occurrence of its variables (also a child that is itself a bare variable)', 5)
     normalise_scope_rule(db, r8, tg)
+    r10 = rep.rule('r10', 'DECL-VARS: the identifier of a declared variable is read only from a child that the tree grammar guarantees to be a declaration', 6)
+    note['decl_var_sites'] = decl_vars_rule(db, r10, tg)
     r9 = rep.rule('r9', 'TYPING-SUPPORT (shared with C03 r8, r9): the checker accepts a set-theoretic construct only when the typing rule derives a type, and the type algebra is the specificity order; the evaluator dereferences exactly these structures', 17)
     C03.type_algebra(db, r9)
     note['typing_rule_cases'] = C03.typing_rules(db, r9, rep.tier)
@@ -592,3 +594,98 @@ def normalise_scope_rule(db, rule, tg):
                     bare, kind, tg.witness.get((kind, bare[0], 'ID_LOCAL'), '?')))
             else:
                 rule.ok(inst, 'in-scope children %s substituted%s' % (idxs if scope != 'all' else 'all', '; bare-variable children covered through the parent' if bare else ''), '%s:%d' % (f.file, f.line))
+
+
+DECL_KINDS = {'ID_LOCAL', 'NT_TUPLE_DECL', 'NT_ENUM_DECL'}
+
+
+def decl_vars_rule(db, rule, tg):
+    """`*begin(nodeVars[C.Child(0).get()])` reads the identifier of the variable a construct declares. It is defined only if child 0 of C is a
+    declaration (the name collector stores exactly one identifier for a local; any other node may have none: begin() of an empty vector).
+    C is the visited node (kinds from the dispatch) or a cursor moved onto a block under `switch (C->id)` (kinds from the case labels)."""
+    n_sites = 0
+    # node kinds for which the name collector stores an identifier on every accepting path
+    from engine.cfgq import success_exits
+    named = set()
+    try:
+        nc = VisitorModel(db, tg, R + 'ASTInterpreter::NameCollector')
+        for g in nc.methods:
+            if g.mn not in nc.kinds or g.name.split('::')[-1] not in ('ViLocal', 'ViGlobal'):
+                continue
+            writes = [g.position_of(x) for x in g.walk() if x['k'] in ('BinaryOperator', 'CXXOperatorCallExpr') and x.get('op') == '='
+                      and 'nodeVars[iter.get()]' in x.get('txt', '').replace(' ', '').replace('parent.', '')]
+            writes = [w for w in writes if w is not None]
+            if writes and not paths_avoiding(g, [g.graph()[1]], writes, success_exits(g)):
+                named |= nc.kinds[g.mn]
+    except AnalysisBroken:
+        pass
+    for cls in (R + 'ASTInterpreter', R + 'ASTInterpreter::NameCollector', R + 'ASTInterpreter::ImpEvaluator'):
+        try:
+            vm = VisitorModel(db, tg, cls) if not cls.endswith('ImpEvaluator') else None
+        except AnalysisBroken:
+            vm = None
+        for f in db.methods_of(cls):
+            if not f.has_cfg():
+                continue
+            for n in f.walk():
+                if not (n['k'] in ('UnaryOperator', 'CXXOperatorCallExpr') and n.get('op') == '*'):
+                    continue
+                kids = f.children(n) if n['k'] == 'UnaryOperator' else [f.stmts[a] for a in n.get('args', [])]
+                if not kids or 'nodeVars' not in kids[0].get('txt', '') or 'begin' not in kids[0].get('txt', ''):
+                    continue
+                n_sites += 1
+                inst = '%s::%s:%s' % (cls.split('::')[-1], f.name.split('::')[-1], n.get('txt', '')[:44])
+                # the cursor expression inside nodeVars[...]
+                childcalls = [x for x in f.walk(n) if x['k'] == 'CXXMemberCallExpr' and (x.get('cs') or '').endswith('Cursor::Child') and 'obj' in x]
+                gets = [x for x in f.walk(n) if x['k'] == 'CXXMemberCallExpr' and (x.get('cs') or '').endswith('Cursor::get') and 'obj' in x]
+                if not childcalls:
+                    # nodeVars[iter.get()] : the node itself must be a local
+                    own = gets and vm is not None and vm._is_own_cursor(f, f.stmts[gets[0]['obj']])
+                    kinds = vm.kinds.get(f.mn, set()) if own else None
+                    if kinds and kinds <= named:
+                        rule.ok(inst, 'the visited node is an identifier: the name collector stores its id on every accepting path (%s)' % ', '.join(sorted(kinds)), f.loc(n))
+                    else:
+                        rule.violation(inst, f.loc(n), 'the identifier list of a node that need not be an identifier is dereferenced: empty for %s' % (sorted(kinds - named)[:4] if kinds else 'an unknown node'))
+                    continue
+                cc = childcalls[0]
+                idx = f.strip(f.stmts[cc['args'][0]]) if cc.get('args') else None
+                k = int(idx.get('cv', idx.get('txt', '-1'))) if idx is not None and idx['k'] == 'IntegerLiteral' else None
+                cur = f.strip(f.stmts[cc['obj']])
+                kinds = None
+                if vm is not None and vm._is_own_cursor(f, cur):
+                    kinds = set(vm.kinds.get(f.mn, set()))
+                    sk = vm.switch_kinds(f, n)
+                    if sk is not None:
+                        kinds = {x for x in kinds if x in sk[1] or (sk[2] and x not in sk[3])}
+                else:
+                    # a local cursor: kinds from the case labels of a switch over its id (directly or through a variable copied from it)
+                    for a in f.ancestors(n):
+                        if a['k'] == 'CaseStmt':
+                            sw = [b for b in f.ancestors(n) if b['k'] == 'SwitchStmt']
+                            if sw:
+                                ctxt = f.stmts[sw[0]['cond']].get('txt', '')
+                                if cur.get('txt', '') and (cur['txt'] + '->id' in ctxt or 'rootID' in ctxt or 'ID' in ctxt):
+                                    body = f.stmts[sw[0]['body']]
+                                    curl, hit = [], None
+                                    for ci in body['c']:
+                                        st = f.stmts[ci]
+                                        labels = []
+                                        while st['k'] in ('CaseStmt', 'DefaultStmt'):
+                                            labels.append('default' if st['k'] == 'DefaultStmt' else (st.get('enumerator') or '').split('::')[-1])
+                                            st = f.stmts[st['sub']]
+                                        if labels:
+                                            curl = labels
+                                        if any(x is n for x in f.walk(st)):
+                                            hit = list(curl)
+                                    if hit and 'default' not in hit:
+                                        kinds = set(hit)
+                            break
+                if kinds is None or k is None:
+                    rule.violation(inst, f.loc(n), 'the node whose child declares the variable cannot be identified (cursor `%s`): the identifier list may be empty' % cur.get('txt', '')[:30])
+                    continue
+                bad = {kd: sorted(tg.children_at(kd, k) - DECL_KINDS)[:4] for kd in kinds if tg.children_at(kd, k) - DECL_KINDS}
+                if bad:
+                    rule.violation(inst, f.loc(n), 'child %d of %s is not always a declaration (it can be %s): a node without variables has an empty identifier list and begin() is dereferenced' % (k, sorted(bad), list(bad.values())[0]))
+                else:
+                    rule.ok(inst, 'child %d of %s is always a declaration' % (k, sorted(kinds)), f.loc(n))
+    return n_sites
